@@ -445,6 +445,10 @@ def upstream_for(r, qnames, addrs, names_local):
                            {"name": tg, "type": t if t not in ("ANY", "CNAME") else "A", "data":
                             {"A": "6.6.6.9", "AAAA": "::69", "TXT": "x6666", "MX": "10 evil.example.", "NS": "evil.example."}.get(t, "6.6.6.9"),
                             "target": ["evil", "example"] if t in ("MX", "NS") else [], "ttl": 300}]
+                elif x < 0.8 and t == "ANY":
+                    ans = [{"name": n, "type": "A", "data": "7.7.7.9", "target": [], "ttl": 300},
+                           {"name": n, "type": "AAAA", "data": "::79", "target": [], "ttl": 300},
+                           {"name": n, "type": "TXT", "data": "x7979", "target": [], "ttl": 300}]
                 elif x < 0.8:
                     ty = t if t not in ("ANY", "CNAME") else "A"
                     ans = [{"name": n, "type": ty, "data": {"A": "7.7.7.%d" % r.randint(1, 2), "AAAA": "::77", "TXT": "x77",
@@ -462,10 +466,30 @@ def local_scenarios(r, n):
     out = []
     for i in range(n):
         zones, cache, qnames = local_config(r)
-        mode = r.choice(["auth", "auth", "recursive", "forwarding"])
+        mode = r.choice(["auth", "auth", "recursive", "forwarding", "forwarding"])
+        local = [(x["name"], x["type"]) for z in zones for x in z["recs"] if x["type"] not in ("SOA",) and x["name"]]
+        owned = [x["name"] for z in zones if z["auth"] for x in z["recs"]] + [z["apex"] for z in zones if z["auth"]]
+        # directed cache contents: an alias into a locally owned name together with (wrong) records for that name,
+        # and (wrong) records for names that local data defines
+        if owned and r.random() < 0.6:
+            t = r.choice(owned)
+            x = r.choice([["ext", "example"], ["tgt", "example"], ["other", "example"]])
+            ty = r.choice(["A", "TXT", "AAAA"])
+            cache = [c for c in cache if not (c["name"] == x and c["type"] == "CNAME")]
+            cache.append({"name": x, "type": "CNAME", "data": dotted(t), "target": t, "ttl": 200})
+            cache.append({"name": t, "type": ty, "data": {"A": "6.6.6.6", "TXT": "x666666", "AAAA": "::66"}[ty], "target": [], "ttl": 200})
+            local.append((x, ty))
+        if local and r.random() < 0.5:
+            nm, ty = r.choice(local)
+            if ty in ("A", "AAAA", "TXT"):
+                cache.append({"name": nm, "type": ty, "data": {"A": "6.6.6.5", "TXT": "x6665", "AAAA": "::65"}[ty], "target": [], "ttl": 200})
         qs = []
-        for _ in range(r.randint(2, 6)):
-            qs.append({"name": r.choice(qnames), "type": r.choice(["A", "A", "AAAA", "CNAME", "TXT", "NS", "ANY", "MX", "SOA"])})
+        for _ in range(r.randint(3, 7)):
+            if local and r.random() < 0.65:
+                nm, ty = r.choice(local)
+                qs.append({"name": nm, "type": r.choice([ty, ty, "ANY", "ANY", "A", "CNAME"])})
+            else:
+                qs.append({"name": r.choice(qnames), "type": r.choice(["A", "A", "AAAA", "CNAME", "TXT", "NS", "ANY", "MX", "SOA"])})
         local_names = [x["name"] for z in zones for x in z["recs"]] or [["lan"]]
         table = upstream_for(r, qnames + [["ns", "ext", "example"], ["a", "root"]], ["10.0.0.1", "10.9.9.9"], local_names) \
             if mode != "auth" else []
